@@ -551,6 +551,9 @@ func generateMore(suite string, seed uint64, i int, r *rng, id string, g gp) *Ca
 			k = 1
 		}
 		base := scaleCfg(cfg, 0)
+		if r.chance(1, 6) { // the whole drawing in a tiny or huge unit (still exact: powers of two): widths around 2^-12 or 2^24..2^36
+			base = scaleCfg(base, []int{-20, 16, 20, 22, 24, 26, 28}[r.intn(7)])
+		}
 		return &Case{ID: id, Op: "multi", Arg: map[string]any{"rel": "scale", "k": float64(k)},
 			Runs: []Run{{base, edges}, {scaleCfg(base, k), edges}}}
 	case "c18bk": // C18: the positioner with a monitor-side verification step, heterogeneous widths, helper nodes
